@@ -317,8 +317,28 @@ pub fn run_sequence(cfg: &Cfg, seed: u64, nops: usize, path: &str) -> (String, S
                 }
                 let kts = r.key_ts(&key);
                 let tb = now_ns();
+                // every public spelling of the same call (slice / Bytes, with / without the defaults)
+                let bytes_api = rng.chance(1, 2);
                 let res = if use_ttl_api {
-                    r.store().insert_with_ttl_and_timestamp(&key, &vb, ttl, ts)
+                    if ts.is_none() && rng.chance(1, 2) {
+                        if bytes_api {
+                            r.store().insert_bytes_with_ttl(&key, bytes::Bytes::from(vb.clone()), ttl)
+                        } else {
+                            r.store().insert_with_ttl(&key, &vb, ttl)
+                        }
+                    } else if bytes_api {
+                        r.store().insert_bytes_with_ttl_and_timestamp(&key, bytes::Bytes::from(vb.clone()), ttl, ts)
+                    } else {
+                        r.store().insert_with_ttl_and_timestamp(&key, &vb, ttl, ts)
+                    }
+                } else if ts.is_none() && rng.chance(1, 2) {
+                    if bytes_api {
+                        r.store().insert_bytes(&key, bytes::Bytes::from(vb.clone()))
+                    } else {
+                        r.store().insert(&key, &vb)
+                    }
+                } else if bytes_api {
+                    r.store().insert_bytes_with_timestamp(&key, bytes::Bytes::from(vb.clone()), ts)
                 } else {
                     r.store().insert_with_timestamp(&key, &vb, ts)
                 };
@@ -349,7 +369,7 @@ pub fn run_sequence(cfg: &Cfg, seed: u64, nops: usize, path: &str) -> (String, S
                 let ts = gen_ts(&mut rng, r.store(), &key, now, cfg.extreme);
                 let kts = r.key_ts(&key);
                 let tb = now_ns();
-                let res = r.store().delete_with_timestamp(&key, ts);
+                let res = if ts.is_none() && rng.chance(1, 2) { r.store().delete(&key) } else { r.store().delete_with_timestamp(&key, ts) };
                 let ta = now_ns();
                 let out = match &res {
                     Ok(()) => {
@@ -375,7 +395,12 @@ pub fn run_sequence(cfg: &Cfg, seed: u64, nops: usize, path: &str) -> (String, S
                 let ts = if ttl > 0 && ts.map_or(false, |t| t != 0 && t < now) { None } else { ts };
                 let kts = r.key_ts(&ckey);
                 let tb = now_ns();
-                let res = r.store().atomic_increment_with_timestamp_and_ttl(&ckey, delta, ts, ttl);
+                let res = match (ts, ttl, rng.below(2)) {
+                    (None, 0, 0) => r.store().atomic_increment(&ckey, delta),
+                    (_, 0, 0) => r.store().atomic_increment_with_timestamp(&ckey, delta, ts),
+                    (None, _, 0) => r.store().atomic_increment_with_ttl(&ckey, delta, ttl),
+                    _ => r.store().atomic_increment_with_timestamp_and_ttl(&ckey, delta, ts, ttl),
+                };
                 let ta = now_ns();
                 let out = match &res {
                     Ok(v) => {
@@ -420,7 +445,12 @@ pub fn run_sequence(cfg: &Cfg, seed: u64, nops: usize, path: &str) -> (String, S
                 let ts = if ttl > 0 && ts.map_or(false, |t| t != 0 && t < now) { None } else { ts };
                 let kts = r.key_ts(&key);
                 let tb = now_ns();
-                let res = r.store().compare_and_swap_with_timestamp_and_ttl(&key, &expected.bytes(), &v.bytes(), ts, ttl);
+                let res = match (ts, ttl, rng.below(2)) {
+                    (None, 0, 0) => r.store().compare_and_swap(&key, &expected.bytes(), &v.bytes()),
+                    (_, 0, 0) => r.store().compare_and_swap_with_timestamp(&key, &expected.bytes(), &v.bytes(), ts),
+                    (None, _, 0) => r.store().compare_and_swap_with_ttl(&key, &expected.bytes(), &v.bytes(), ttl),
+                    _ => r.store().compare_and_swap_with_timestamp_and_ttl(&key, &expected.bytes(), &v.bytes(), ts, ttl),
+                };
                 let ta = now_ns();
                 let out = match &res {
                     Ok(b) => {
@@ -446,7 +476,7 @@ pub fn run_sequence(cfg: &Cfg, seed: u64, nops: usize, path: &str) -> (String, S
                     .and_then(|cur| feoxdb::utils::json_patch::apply_json_patch(cur, patch).ok());
                 let kts = r.key_ts(&jkey);
                 let tb = now_ns();
-                let res = r.store().json_patch_with_timestamp(&jkey, patch, ts);
+                let res = if ts.is_none() && rng.chance(1, 2) { r.store().json_patch(&jkey, patch) } else { r.store().json_patch_with_timestamp(&jkey, patch, ts) };
                 let ta = now_ns();
                 let out = match &res {
                     Ok(()) => {
